@@ -35,7 +35,7 @@ static inline void gen_wcfg(rng_t *r, wcfg_t *c)
 	static const size_t BS[] = {1, 1024, 1024, 1500, 4096, 8192, 65536};
 	static const size_t RI[] = {1, 2, 3, 4, 7, 16, 16, 17, 1000};
 	static const int POOL[] = {-1, -1, -1, 0, 1, 2, 4, 8};
-	static const size_t PFX[] = {0, 0, 0, 1, 13, 512, 4097};
+	static const size_t PFX[] = {0, 0, 0, 0, 1, 13, 512, 4097, 3000, 4095};     /* incl. offsets near the end of a page */
 	static const int below[] = {INT_MIN / 2, -100000, -50, -7, -2};
 	static const int above[] = {23, 100, 100000, INT_MAX / 2};
 	memset(c, 0, sizeof *c);
